@@ -12,6 +12,10 @@ CHECKS = {
                 technique="TLC enumerates the call space (Calls.tla) as a state space; outcomes of the real runs validated by the TLA+ monitor Outcome.tla",
                 text="The input space is a TLA+ state space: every built-in function and statement x every tuple of statically admissible argument classes (boundary numbers, each numeric variable type, expressions, array elements, empty / non-ASCII / long / fixed-length strings, open / closed / invalid handles) x expression wrapper x program position (main, inside a SUB, with an error handler active) - 70 815 states, enumerated by TLC. Each is rendered and given to the real checker; what it accepts is compiled and run on several console inputs (empty, number, text, commas, long line, non-UTF-8 bytes); accepted programs of the C01/C03/C04/C05 families and of the repository's own tests run too. Outcome.tla admits only: normal end, a BASIC run-time error with a known code and a position inside the text, or the instruction budget.",
                 note="The oracle is thin (class of outcome only), hence exploration, not model checking. Trusted: renderer of argument classes, watchdog. Hangs are bounded by the instruction budget; stack overflow / abort kills the worker and is reported."),
+    "C09": dict(level="model_checking", design="DESIGN.md section 5 C09",
+                technique="TLC enumeration of layout moves over token sequences (Layout.tla, invariant CanonPreserved) + differential validation of every enumerated variant on the real parser, checker and VM",
+                text="Layout.tla describes a program as a token sequence and the layout moves as changes of layout attributes only (letter case of keywords and identifiers, width of a blank run incl. tabs, blank line, trailing comment, newline <-> colon between simple statements, CR LF / LF / CR); TLC checks that every move preserves the canonical token sequence and enumerates, per seed program, every single site x move (thorough: every pair of sites), the all-at-once variants and the three line-ending conventions. The driver materialises every variant and the real front end and VM must give the same parse tree up to positions/comments/letter case, the same verdict (accept, or reject with the same error family) and the same output and outcome as the base text. Seeds: programs of the C01/C03/C04/C05 families, every program text of the repository's tests, and rejected programs.",
+                note="Trusted: the site finder (lexer over the base text: string literals, comments, DATA payloads and numeric literals are not sites) - a wrongly eligible site shows as a difference, never as a miss; TLC. Tree comparison is textual (Debug) after erasing positions and comments."),
     "C15": dict(level="model_checking", design="DESIGN.md section 5 C15",
                 technique="TLC model checking of the REAL generated instruction lists with an abstract VM (VMAbs.tla) + TLA+ monitor (StackMon.tla) over the hook's depth vectors",
                 text="The instruction list the real generator produced for every accepted program (C01/C03/C04/C05/C06 families and every program text embedded in the repository's tests and fixtures) is exported and TLC explores its control-flow graph path by path with an abstract VM that keeps only stack depths, pending returns and pending GOSUBs: static well-formedness (targets resolved and in range, labels once, procedures closed under branches, main ends in Halt and procedures in PopRet, statement addresses ascending), no underflow, no depth beyond a bound (growth with the iteration count), clean state at the final Halt. Every (statement boundary, context, depths relative to the activation) TLC reaches - and every one the hook recorded in the real runs - goes through StackMon.tla: a boundary in a context has one depth vector and empty variable-path / by-ref / argument stacks.",
